@@ -49,15 +49,26 @@ class Check:
         self.trusted: list[str] = []
         self.quiet = False
         self.errors: list[str] = []
+        self.unconfirmed: list[dict] = []
 
     def run_rule(self, fn, *args) -> None:
         """Run one rule; an AnalysisError in it does not hide the verdicts of the other rules."""
         from .model import AnalysisError
 
+        before = len(self.findings)
         try:
             fn(*args, self)
         except AnalysisError as err:
             self.errors.append(f"{getattr(fn, '__name__', 'rule')}: {err}")
+            # a rule that could not complete its analysis (a construct without a model, a lost anchor) gives no verdict:
+            # what it refuted up to that point rests on an incomplete picture of the code and is reported as
+            # unconfirmed, not as a violation (the run still ends as an analysis error, never as a pass)
+            demoted = self.findings[before:]
+            del self.findings[before:]
+            for f in demoted:
+                self.rules[f.rule]["refuted"] -= 1
+                self.rules[f.rule]["obligations"] -= 1
+                self.unconfirmed.append({"rule": f.rule, "construct": f.key, "loc": f.loc, "what": f.what})
 
     # ---- recording
 
@@ -171,6 +182,8 @@ class Check:
         }
         if error:
             coverage["analysis_error"] = error
+        if self.unconfirmed:
+            coverage["unconfirmed"] = self.unconfirmed[:20]
         ev = {
             "property_id": self.prop,
             "tier": self.tier,
@@ -197,6 +210,8 @@ class Check:
             return 1
         if error:
             print(f"ANALYSIS-ERROR property={self.prop}: {error}")
+            for u in self.unconfirmed[:6]:
+                print(f"  (unconfirmed, the rule did not complete: [{u['rule']}] {u['loc']} {u['construct'][:160]})")
             return 2
         if not self.quiet:
             print(f"OK property={self.prop}: {discharged}/{obligations} obligations discharged" + (f", {len(seen_known)} known finding(s)" if seen_known else ""))
